@@ -90,6 +90,20 @@ Theorem c09_group_equiv_inline : forall c e cs v ec (Hm : marks_ok c = true) ret
 Proof. exact group_equiv_inline. Qed.
 Print Assumptions c09_group_equiv_inline.
 
+(* ... and not only up to the verdict: jumping to the group chain and then testing the accept mark computes
+   EXACTLY the result (same outcome, same final packet and marks) of the inlined sequence, in front of any
+   remaining rules `rs` of the endpoint chain. *)
+Theorem c09_group_equiv_inline_exact : forall c e cs v ec (Hm : marks_ok c = true) ret first,
+  (forall k, first k = true -> k = 0%nat \/ ret k = true) ->
+  forall f rs gname pols p,
+  pols_in_cs c e cs v pols ->
+  lookup cs gname = Some (group_rules_gen ret first c 0 pols) ->
+  wfp v p -> st c false false (pk_mark p) ->
+  go cs e (run (S (S f)) cs e) (grouped_jumps ec c gname ++ rs) p
+  = go cs e (run (S (S f)) cs e) (inlined_jumps ec c pols ++ rs) p.
+Proof. exact group_inline_exact. Qed.
+Print Assumptions c09_group_equiv_inline_exact.
+
 (* the renderer's stride of five, and any other positive stride, satisfy the placement condition *)
 Theorem c09_stride_placement_ok :
   (forall k, stride_first k = true -> k = 0%nat \/ stride_ret k = true)
